@@ -138,6 +138,14 @@ Theorem C03_frag_gather_and_writes : forall i ev p c,
 Proof. exact (fun i ev p c => conj (frag_gather i ev c) (frag_add_fields p c)). Qed.
 Print Assumptions C03_frag_gather_and_writes.
 
+(* storage dtypes (codes picked from the constructors): observations / next observations keep the observation space's dtype - what is
+   sampled is bit-for-bit what was added, for every dtype; actions go through _maybe_cast_dtype (float64 -> float32, documented); rest float32 *)
+Theorem C03_frag_alloc_dtypes :
+  (rb_alloc_obs_dtype, rb_alloc_next_dtype, rb_alloc_act_dtype, rb_alloc_rew_dtype, rb_alloc_done_dtype, rb_alloc_to_dtype) = (1, 1, 2, 3, 3, 3) /\
+  (dictrb_alloc_obs_dtype, dictrb_alloc_next_dtype, dictrb_alloc_act_dtype) = (1, 1, 2).
+Proof. exact frag_alloc_dtypes. Qed.
+Print Assumptions C03_frag_alloc_dtypes.
+
 (* completeness over (index, env) pairs: every stored add and every env column can be drawn *)
 Theorem C03_sample_complete_pairs : forall dict bs n mo ht b0 ops k ev, create dict bs n mo ht = Some b0 ->
   let b := run b0 ops in let h := recent ops in
